@@ -54,9 +54,9 @@ func run(c Case) *vkit.Result {
 
 var prop = vkit.Prop[Case]{
 	ID: "C09",
-	Rule: "three families. http: wire-format request (method x routed path / near-miss x query/form built from a per-grant scenario whose credential-like slots (code, code_verifier, refresh_token, device_code, assertion, subject/actor token, Bearer token, token, id_token_hint, request, callback id, client_assertion) are filled from a catalogue of live material of flows that ran on the same fresh instance: codes of 5 clients x authorization request without / with S256 / with plain code_challenge, used codes, access / refresh / ID tokens of every client and of the device, implicit and client_credentials flows, revoked / expired / rotated tokens, pending / approved / denied / expired / used device codes, auth request ids, assertions, request objects - mostly the kind that belongs into the slot with the matching client's credentials, otherwise anything of the catalogue (material of flow A in request shape B: verifier without challenge, challenge without verifier, code of another client, refresh token at the code grant, ID token as access token ...); token:cross = any grant_type with the parameters of any other grant; then 0-3 mutations: dropped / duplicated / hostile / raw %zz pairs, parameters of other request shapes, ';' separators, content types, raw bodies, listed and generated (scheme cut at any length x separator x credentials) Authorization headers on every endpoint, Forwarded/Host) parsed by net/http's own ReadRequest and served 1-3 times by one instance of the Provider router, the LegacyServer router or an exported handler function, over a storage that words its own refusals as plain error / *oidc.Error / wrapped *oidc.Error / server_error; oracle per served request: no panic, WriteHeader at most once, valid status, one JSON document, no storage call and no token material after the first byte of an error answer. " +
+	Rule: "three families. http: wire-format request (method x routed path / near-miss x query/form built from a per-grant scenario whose credential-like slots (code, code_verifier, refresh_token, device_code, assertion, subject/actor token, Bearer token, token, id_token_hint, request, callback id, client_assertion) are filled from a catalogue of live material of flows that ran on the same fresh instance: codes of 5 clients x authorization request without / with S256 / with plain code_challenge, used codes, access / refresh / ID tokens of every client and of the device, implicit and client_credentials flows, revoked / expired / rotated tokens, pending / approved / denied / expired / used device codes, auth request ids, assertions, request objects - mostly the kind that belongs into the slot with the matching client's credentials, otherwise anything of the catalogue (material of flow A in request shape B: verifier without challenge, challenge without verifier, code of another client, refresh token at the code grant, ID token as access token ...); token:cross = any grant_type with the parameters of any other grant; then 0-3 mutations: dropped / duplicated / hostile / raw %zz pairs, parameters of other request shapes, ';' separators, content types, raw bodies, listed and generated (scheme cut at any length x separator x credentials) Authorization headers on every endpoint, Forwarded/Host) parsed by net/http's own ReadRequest and served 1-3 times by one instance of the Provider router, the LegacyServer router or an exported handler function, over a storage that words its own refusals as plain error / *oidc.Error / wrapped *oidc.Error / server_error and that, in every second case, fails once while the request under test is served (single fault: the k-th storage call of the request, k in 1..10, or every call of one storage method, mostly one the scenario uses; kinds error / deadline / partial result with error / *oidc.Error / wrapped *oidc.Error); oracle per served request: no panic, WriteHeader at most once, valid status, one JSON document, no storage call and no token material after the first byte of an error answer. " +
 		"token: compact / JSON-serialised JWS (payload from a JSON grammar: null, non-objects, non-string aud members, huge / fractional / string times, nested act, invalid UTF-8, duplicates; hostile headers; valid / garbage / wrong-key signatures; mangled segments) and raw documents to rp.VerifyIDToken, rp.VerifyTokens, op.VerifyAccessToken, op.VerifyIDTokenHint, op.VerifyJWTAssertion, op.ParseRequestObject, oidc.ParseToken and json.Unmarshal into every claims / response type (T and **T); oracle: returns, no panic. " +
-		"client: in-process RoundTripper answers discovery / token / userinfo / introspection / JWKS / device / revoke / end-session with generated status x body (null, arrays, truncated, wrong member types, hostile URLs and ID tokens, read and transport errors) for 18 client helpers; oracle: returns, no panic. " +
+		"client: in-process RoundTripper answers discovery / token / userinfo / introspection / JWKS / device / revoke / end-session with generated status x body (null, arrays, truncated, wrong member types, hostile URLs and ID tokens, read and transport errors) for 18 client helpers called with fixed arguments and for 4 helper chains in which every call takes its arguments from the response the previous helper returned, as the example clients do (device_flow: DeviceAuthorization -> DeviceAccessToken(device_code, interval) with a 25 ms context, token polls first answered authorization_pending / slow_down / ...; code_flow: CodeExchange -> Userinfo -> RefreshTokens -> Userinfo -> RevokeToken -> EndSession; cc_flow: ClientCredentials -> Userinfo -> rs.Introspect -> RevokeToken; refresh_flow: 3 x (RefreshTokens -> Userinfo)); in chains the feeding response is mostly the correct document reduced to a random subset of members and / or with zero / negative / huge / null members (so that it still decodes), the later endpoints and the discovery document answer with anything, an answer may apply only from the n-th request to its endpoint on; oracle: returns, no panic. " +
 		"requests that net/http itself refuses are excluded (counted as http:rejected-by-net/http). non-trivial = input passes the first syntactic gate of its target (routed to a handler / three segments with base64url payload or valid JSON document / primary endpoint answered 200 with valid JSON); distinct = (family, target, shape class, hash of the case)",
 	Gen:   genCase,
 	Run:   run,
